@@ -43,19 +43,19 @@ type lfSet struct {
 }
 
 type lfC12 struct {
-	Path     []string     `json:"path"`
-	LCannot  []string     `json:"lcannot"`
-	RCannot  []string     `json:"rcannot"`
-	Q        string       `json:"q"`
-	Op       string       `json:"op"`
-	Flags    []lflow.Flag `json:"flags"`
-	LOr      bool         `json:"lor"`
-	ROr      bool         `json:"ror"`
-	NPrem    int          `json:"nprem"`
-	NonEmpty int          `json:"nonempty"`
-	WitNE    lfWitness    `json:"wit_ne"`
-	Differs  int          `json:"differs"`
-	WitDiff  lfWitness    `json:"wit_diff"`
+	Path     []string       `json:"path"`
+	LCannot  []string       `json:"lcannot"`
+	RCannot  []string       `json:"rcannot"`
+	Q        string         `json:"q"`
+	Op       string         `json:"op"`
+	Flags    []lflow.Flag   `json:"flags"`
+	LOr      bool           `json:"lor"`
+	ROr      bool           `json:"ror"`
+	NPrem    int            `json:"nprem"`
+	NonEmpty int            `json:"nonempty"`
+	WitNE    lfWitness      `json:"wit_ne"`
+	Differs  int            `json:"differs"`
+	WitDiff  lfWitness      `json:"wit_diff"`
 	LhsDiff  []lflow.Series `json:"lhs_diff"`
 }
 
